@@ -6,7 +6,8 @@ Values that are `==` in Python (True, 1, 1.0) share a code, which is how the mod
 treats constants; *values* additionally carry a type tag.
 """
 import sys
-from collections.abc import Callable, Container, Hashable, Iterable
+from collections.abc import Callable, Container, Iterable
+from typing import Hashable  # the object standard_predicates.py uses
 from datetime import datetime
 from uuid import UUID
 
